@@ -12,6 +12,10 @@ import (
 func Globs(dir string, globs []*ast.Glob) ([]string, error) {
 	resultMap := make(map[string]bool)
 	for _, g := range globs {
+		// A null entry in the Taskfile decodes to a nil element
+		if g == nil {
+			continue
+		}
 		matches, err := glob(dir, g.Glob)
 		if err != nil {
 			continue
